@@ -72,12 +72,13 @@ Section Spec.
      options is pr = false.                                                                      *)
 
   (* the visit passes the per-entry tests: the entry exists, (visit_path only, with pruning: its path may
-     contain matches), its name is not hidden unless --hidden, no ignore file collected on the way
-     matches it unless --no-ignore *)
+     contain matches), its name is not hidden unless --hidden or it is visited at level 0 (an input path,
+     or what an input path that is a link points to), no ignore file collected on the way matches it
+     unless --no-ignore *)
   Definition enters (pr : bool) (tk : task) (nd : node) : Prop :=
     lookup t (t_path tk) = Some nd /\
     (t_kind tk = TPath -> pr = true -> sel_dir (t_path tk) = true) /\
-    (c_hidden c = true \/ name_hidden (t_path tk) = false) /\
+    (c_hidden c = true \/ t_level tk = 0 \/ name_hidden (t_path tk) = false) /\
     (c_no_ignore c = true \/ ignored (t_stack tk) (t_path tk) (is_dir_kind nd) = false).
 
   Definition listed (q : path) : Prop :=
@@ -172,7 +173,7 @@ Section Spec.
     | None => None
     | Some nd =>
       if (match t_kind tk with TPath => sel_dir (t_path tk) | TEntry => true end)
-           && negb (negb (c_hidden c) && name_hidden (t_path tk))
+           && negb (negb (c_hidden c) && (0 <? t_level tk) && name_hidden (t_path tk))
       then Some nd else None
     end.
 
@@ -203,12 +204,12 @@ Section Spec.
     unfold visit_entry.
     destruct (t_kind tk).
     - destruct (sel_dir (t_path tk)); cbn [andb]; [|reflexivity].
-      destruct (negb (c_hidden c) && name_hidden (t_path tk)); cbn [negb]; [reflexivity|].
+      destruct (negb (c_hidden c) && (0 <? t_level tk) && name_hidden (t_path tk)); cbn [negb]; [reflexivity|].
       destruct (c_follow c && mem (t_path tk) vis); [reflexivity|].
       destruct (negb (c_no_ignore c) && ignored (t_stack tk) (t_path tk) (is_dir_kind nd)); [reflexivity|].
       destruct (n_kind nd); try reflexivity.
     - cbn [andb].
-      destruct (negb (c_hidden c) && name_hidden (t_path tk)); cbn [negb]; [reflexivity|].
+      destruct (negb (c_hidden c) && (0 <? t_level tk) && name_hidden (t_path tk)); cbn [negb]; [reflexivity|].
       destruct (c_follow c && mem (t_path tk) vis); [reflexivity|].
       destruct (negb (c_no_ignore c) && ignored (t_stack tk) (t_path tk) (is_dir_kind nd)); [reflexivity|].
       destruct (n_kind nd); try reflexivity.
@@ -221,15 +222,19 @@ Section Spec.
       + assert (E1 : match t_kind tk with TPath => sel_dir (t_path tk) | TEntry => true end = true).
         { destruct (t_kind tk); auto. }
         rewrite E1. cbn [andb].
-        destruct H3 as [-> | ->]; cbn; [reflexivity|]. now rewrite andb_false_r.
+        destruct H3 as [-> | [-> | ->]]; cbn; [reflexivity| |].
+        * now rewrite andb_false_r.
+        * now rewrite andb_false_r.
       + destruct H4 as [-> | ->]; cbn; auto. now rewrite andb_false_r.
     - intros [H1 H2]. destruct (lookup t (t_path tk)) as [nd'|]; [|discriminate].
       destruct (match t_kind tk with TPath => sel_dir (t_path tk) | TEntry => true end) eqn:E1; [|discriminate].
       cbn [andb] in H1.
-      destruct (negb (c_hidden c) && name_hidden (t_path tk)) eqn:E2; [discriminate|].
+      destruct (negb (c_hidden c) && (0 <? t_level tk) && name_hidden (t_path tk)) eqn:E2; [discriminate|].
       cbn [negb] in H1. injection H1 as ->. repeat split; auto.
       + intros Hk _. now rewrite Hk in E1.
       + destruct (c_hidden c); cbn in E2; auto.
+        destruct (0 <? t_level tk) eqn:El; cbn in E2; auto.
+        apply N.ltb_ge in El. right. left. lia.
       + destruct (c_no_ignore c); cbn in H2; auto.
   Qed.
 
